@@ -221,6 +221,14 @@ class WebSocketReader:
             if not fin:
                 # got partial frame payload
                 if opcode != OP_CODE_CONTINUATION:
+                    # A new data frame must not start while a fragmented
+                    # message is still open (RFC 6455 section 5.4).
+                    if self._opcode != OP_CODE_NOT_SET:
+                        raise WebSocketError(
+                            WSCloseCode.PROTOCOL_ERROR,
+                            "The opcode in non-fin frame is expected "
+                            f"to be zero, got {opcode!r}",
+                        )
                     self._opcode = opcode
                 self._partial += payload
                 return
@@ -231,7 +239,7 @@ class WebSocketReader:
                 self._opcode = OP_CODE_NOT_SET
             # previous frame was non finished
             # we should get continuation opcode
-            elif has_partial:
+            elif has_partial or self._opcode != OP_CODE_NOT_SET:
                 raise WebSocketError(
                     WSCloseCode.PROTOCOL_ERROR,
                     "The opcode in non-fin frame is expected "
